@@ -727,7 +727,7 @@ AvatarStep(s, c) ==
     [] f.k = "color" -> Ok([F("chars", f.n, f.rc) EXCEPT !.ca = AttrFromU8(c, s.bice)])
     [] f.k = "move" ->
          IF f.n = 1 THEN Ok(F("move", 2, c))
-         ELSE IF f.n = 2 THEN Ok(Limit([F("chars", f.n, f.rc) EXCEPT !.x = f.rc, !.y = c]))
+         ELSE IF f.n = 2 THEN Ok(Limit([F("chars", f.n, f.rc) EXCEPT !.y = Max2(f.rc - 1, 0), !.x = Max2(c - 1, 0)]))     \* ^V^H row col, one based
          ELSE Err(s)
     [] OTHER -> Err(s)
 
